@@ -2,4 +2,4 @@
 from ..e1 import ReusePart
 
 PROP = ReusePart("C10", ["C10", "C03", "C01"], ["LokyModel.Props.C10"], quick=1500, thorough=30000,
-                 families=[("reuse", 3), ("reusecrash", 2), ("reusegrow", 3), ("reusebig", 1), ("reusecb", 1), ("reusecancel", 2)])
+                 families=[("reuse", 3), ("reusecrash", 2), ("reusegrow", 3), ("reusebig", 1), ("reusecb", 1), ("reusecancel", 2), ("reusecbsub", 1), ("reusebigcrash", 1), ("reuseput", 2)])
